@@ -13,6 +13,12 @@
 //	         library, not counted by the census) wraps every element into a fresh cell and forwards it over an
 //	         unbuffered channel; it holds at most one element, which is why these scripts are not compared
 //	         with the Lean model (channel lengths differ by that element) but judged by the direct oracle only.
+//	ref:same: as ref, but equal element values are THE SAME *cell object (the adapter interns the cells by value): an
+//	         input like s5 s5 s5 is one caller-owned object occurring three times (a shared constant).
+//	         Every ref script has a second, pseudo output r1 that INSPECTS the caller's side: w<orig>=<now>,…/f<fold> lists
+//	         every distinct cell handed to the library (value when it was created = value the script sent, value it holds
+//	         now) and the sequential left fold from a fresh Empty() over the very same cell objects in the order sent,
+//	         as they are now (what pipe.Fold of the same input gives: it only reads the elements).
 //
 // Which goroutine count the stage uses must not depend on GOMAXPROCS: the check runs part of the scripts in a
 // harness process started with GOMAXPROCS=1 / 2 (cfg key procs=<n>, read by checks/C10.py, ignored here).
@@ -22,6 +28,7 @@ import (
 	"context"
 	"strconv"
 	"strings"
+	"sync"
 	"time"
 
 	"github.com/fogfish/golem/pipe/v2/fork"
@@ -64,7 +71,52 @@ func outCell(ch <-chan *cell) outp {
 	}, func() int { return len(ch) }}
 }
 
-// parseFoldM splits mon=[slow<d>:][ref:]<base>
+// the caller's view of the cells it handed to the library (ref scripts)
+type cellLog struct {
+	mu     sync.Mutex
+	same   bool
+	byVal  map[int]*cell
+	cells  []*cell // distinct objects, in order of creation
+	orig   []int
+	sent   []*cell // in the order handed over (an interned object occurs as often as it was sent)
+	closed bool
+}
+
+func (l *cellLog) wrap(x int) *cell {
+	l.mu.Lock()
+	defer l.mu.Unlock()
+	c, ok := l.byVal[x]
+	if !ok || !l.same {
+		c = &cell{v: x}
+		l.byVal[x] = c
+		l.cells = append(l.cells, c)
+		l.orig = append(l.orig, x)
+	}
+	l.sent = append(l.sent, c)
+	return c
+}
+
+// pseudo output: w<orig>=<now>,…/f<left fold of the sent cells as they are now, from a fresh identity>
+func (l *cellLog) output(e int, op func(int, int) int) outp {
+	return outp{func() string {
+		l.mu.Lock()
+		defer l.mu.Unlock()
+		if l.closed {
+			return "closed"
+		}
+		ps := make([]string, len(l.cells))
+		for i, c := range l.cells {
+			ps[i] = strconv.Itoa(l.orig[i]) + "=" + strconv.Itoa(c.v)
+		}
+		acc := e
+		for _, c := range l.sent {
+			acc = op(acc, c.v)
+		}
+		return "w" + strings.Join(ps, ",") + "/f" + strconv.Itoa(acc)
+	}, func() int { return 0 }}
+}
+
+// parseFoldM splits mon=[slow<d>:][ref:[same:]]<base>
 func parseFoldM(name string) (delay time.Duration, ref bool, base string) {
 	parts := strings.Split(name, ":")
 	for len(parts) > 1 {
@@ -96,16 +148,22 @@ func init() {
 			return []chan int{in}, []outp{outInt(fork.Fold(ctx, c.par, in, m))}
 		}
 		cin := make(chan *cell)
+		log := &cellLog{same: strings.Contains(":"+c.mon, ":same:"), byVal: map[int]*cell{}}
 		go func() {
 			defer close(cin)
 			for x := range in {
 				select {
-				case cin <- &cell{v: x}:
+				case cin <- log.wrap(x):
 				case <-ctx.Done(): // teardown: keep draining so that this goroutine always exits
 				}
 			}
 		}()
+		e.teardown = append(e.teardown, func() {
+			log.mu.Lock()
+			log.closed = true
+			log.mu.Unlock()
+		})
 		m := cellMonoid{e: bm.Empty(), op: bm.Combine, delay: delay}
-		return []chan int{in}, []outp{outCell(fork.Fold[*cell](ctx, c.par, cin, m))}
+		return []chan int{in}, []outp{outCell(fork.Fold[*cell](ctx, c.par, cin, m)), log.output(bm.Empty(), bm.Combine)}
 	}
 }
